@@ -468,7 +468,17 @@ func (r *Reader) PageCount() (int, error) {
 	if err := r.ensurePageTree(); err != nil {
 		return 0, err
 	}
-	return r.pageTree.Count()
+	// The pages are the leaves of the tree. /Count is what the file claims: a
+	// claim beyond the leaves that are there would have every caller loop over,
+	// and allocate for, pages that do not exist
+	if _, err := r.pageTree.Count(); err != nil {
+		return 0, err
+	}
+	leaves, err := r.pageTree.Pages()
+	if err != nil {
+		return 0, err
+	}
+	return len(leaves), nil
 }
 
 // GetPage returns the page at the given index (0-based)
